@@ -31,8 +31,8 @@ import os, re, json, subprocess
 
 FUNCS = ['is_red', 'flip_color', 'rotate_left', 'rotate_right', 'move_red_left', 'move_red_right', 'fix',
          'find_min', 'find_max', 'remove_min', 'put_obj', 'find_obj',
-         'node_check_red', 'node_check_llrb']
-KEYED = ('put_obj', 'find_obj')           # translated inside a Section over kc : positive -> Z (the comparator's answer for the searched key at a node)
+         'node_check_red', 'node_check_llrb', 'remove_obj']
+KEYED = ('put_obj', 'find_obj', 'remove_obj')           # translated inside a Section over kc : positive -> Z (the comparator's answer for the searched key at a node)
 PAYLOAD_FIELDS = ('name', 'data', 'namesize', 'datasize')
 PAYLOAD = ('name', 'data')      # fields of the node object that are not part of the heap model
 COUNTERS = re.compile(r'^_q_treetbl_\w+_cnt$')
@@ -262,6 +262,28 @@ class Fn:
             return l.get('kind') == 'MemberExpr' and l.get('name') in PAYLOAD_FIELDS and not self.has_call(s['inner'][1])
         return False
 
+    def always_returns(self, stmts):
+        fl = self.flat(stmts)
+        if not fl:
+            return False
+        last = fl[-1]
+        if last.get('kind') == 'ReturnStmt':
+            return True
+        if last.get('kind') == 'IfStmt' and len(last['inner']) > 2:
+            return self.always_returns([last['inner'][1]]) and self.always_returns([last['inner'][2]])
+        return False
+
+    def used_in(self, stmts):
+        acc = set()
+        def walk(n):
+            if n.get('kind') == 'DeclRefExpr':
+                acc.add(n['referencedDecl']['name'])
+            for c in n.get('inner', []):
+                walk(c)
+        for st in stmts:
+            walk(st)
+        return acc
+
     def has_return(self, s):
         if s.get('kind') == 'ReturnStmt':
             return True
@@ -351,6 +373,24 @@ class Fn:
             parts = s['inner']
             cond, th = parts[0], [parts[1]]
             el = [parts[2]] if len(parts) > 2 else []
+            if self.has_return(s) and rest and not self.always_returns(th) and not self.always_returns(el):
+                # both branches may fall through to what follows: what follows becomes ONE local continuation over the
+                # locals in scope, instead of a copy in each branch
+                self.nk = getattr(self, 'nk', 0) + 1
+                kname = 'k_rest%d' % self.nk
+                vs = sorted(self.assigned(s, set()) | (self.ints | self.bools | (self.locals - set())) & self.used_in(rest))
+                vs = [v for v in vs if v in (self.locals | self.ints | self.bools)]
+                tup = vs[0] if len(vs) == 1 else '(' + ', '.join(vs) + ')'
+                pat = vs[0] if len(vs) == 1 else "'(" + ', '.join(vs) + ')'
+                saved = (set(self.locals), set(self.ints), set(self.bools))
+                krest = self.block(rest, tail)
+                self.locals, self.ints, self.bools = set(saved[0]), set(saved[1]), set(saved[2])
+                a = self.block(th, '%s %s' % (kname, tup))
+                self.locals, self.ints, self.bools = set(saved[0]), set(saved[1]), set(saved[2])
+                b = self.block(el, '%s %s' % (kname, tup))
+                self.locals, self.ints, self.bools = saved
+                return 'let %s := (fun %s =>\n  %s) in\n  %s' % (kname, pat, krest,
+                        self.mon(self.bind(self.tr(cond), lambda c: ('m', 'if %s then (%s)\n  else (%s)' % (c, a, b)))))
             if self.has_return(s):
                 saved = set(self.locals)
                 a = self.block(th + rest, tail)
